@@ -67,6 +67,28 @@ Proof.
 Qed.
 Print Assumptions C19_handshake.
 
+(* without that precondition n_edges is NOT the edge count of the cluster: clusters {0,1},{2,3}
+   with thresholded edges 0-1, 1-2, 2-3 (edge 1-2 crosses) give n_edges = 3/2 and density = 3/2
+   for both clusters, although each contains exactly one edge.  The precondition holds whenever
+   df_clustered comes from clustering the same thresholded graph. *)
+Theorem C19_n_edges_crossing_refuted :
+  exists C thr P r,
+    NoDup (map fst C) /\
+    In r (graph_metrics_clusters (graph_metrics_nodes C (truncated_edges thr P))) /\
+    inside (cluster_members C (cl_cid r)) (truncated_edges thr P) = 1 /\
+    (cl_n_edges r == 3 # 2)%Q /\ cl_density r = Some (cl_n_edges r * 2 / inject_Z 2)%Q /\
+    ~ (cl_n_edges r == inject_Z (inside (cluster_members C (cl_cid r)) (truncated_edges thr P)))%Q.
+Proof.
+  exists [(0,0);(1,0);(2,2);(3,2)], (1#2)%Q, [(0,1,(9#10)%Q);(1,2,(9#10)%Q);(2,3,(9#10)%Q)],
+         {| cl_cid := 0; cl_n_nodes := 2; cl_n_edges := n_edges_of 3;
+            cl_density := density_of 2 (n_edges_of 3); cl_centralisation := None |}.
+  split; [cbn; repeat constructor; cbn; intuition lia|].
+  split; [vm_compute; left; reflexivity|].
+  split; [vm_compute; reflexivity|]. split; [vm_compute; reflexivity|]. split; [reflexivity|].
+  vm_compute. discriminate.
+Qed.
+Print Assumptions C19_n_edges_crossing_refuted.
+
 (* density = n_edges / (n(n-1)/2) iff n > 1 (NULL otherwise); cluster centralisation =
    sum_v (max degree - degree v) / ((n-1)(n-2)) iff n > 2 (NULL otherwise), where the maximum is
    attained and bounds every degree; node centralisation = degree / (n-1) iff n > 1, else 0 *)
